@@ -4,6 +4,7 @@
 Usage: .venv/bin/python tools/rerun_seeded.py [jobs] [ID_k ...]      prints one line per change, then a summary"""
 import concurrent.futures as cf
 import glob
+import json
 import os
 import re
 import subprocess
@@ -25,6 +26,10 @@ def main():
     dirs = sorted(glob.glob(os.path.join(ROOT, "seeded", "C*_*")))
     if args:
         dirs = [d for d in dirs if os.path.basename(d) in args]
+    retired = [d for d in dirs if "retired" in json.load(open(os.path.join(d, "meta.json")))]
+    for d in retired:
+        print(f"{os.path.basename(d)} retired (see its meta.json)", flush=True)
+    dirs = [d for d in dirs if d not in retired]
     missed = []
     with cf.ThreadPoolExecutor(jobs) as ex:
         for name, rc, checks in ex.map(run, dirs):
